@@ -25,9 +25,19 @@ type vBuf struct {
 	b     []byte
 	pos   int
 	limit int
+	chunk int // > 0: one Read call delivers at most this many bytes (a legal io.Reader: pipes, sockets, decompressors)
 }
 
-func vNewBuf() *vBuf { return &vBuf{limit: -1} }
+// vBufChunk is the chunk size given to every stream created from now on (0: a Read fills the whole buffer)
+var vBufChunk int
+
+func vNewBuf() *vBuf { return &vBuf{limit: -1, chunk: vBufChunk} }
+
+// vPickReaderChunk: the harness runs once with readers that fill every buffer and once with readers that deliver
+// three bytes per call
+func vPickReaderChunk() {
+	vBufChunk = []int{0, 3}[vChoose("reader_delivers_short_reads", 2)]
+}
 
 func (w *vBuf) Write(p []byte) (int, error) {
 	w.b = append(w.b, p...)
@@ -41,6 +51,9 @@ func (r *vBuf) Read(p []byte) (int, error) {
 	}
 	if r.pos >= end {
 		return 0, io.EOF
+	}
+	if r.chunk > 0 && len(p) > r.chunk {
+		p = p[:r.chunk]
 	}
 	n := copy(p, r.b[r.pos:end])
 	r.pos += n
@@ -139,6 +152,8 @@ func H_C07_vector_pq()    { hC07Vector(vKPQ) }
 func H_C07_vector_ivfpq() { hC07Vector(vKIVFPQ) }
 
 func hC07Vector(kind int) {
+	vPickReaderChunk()
+	defer func() { vBufChunk = 0 }()
 	metric := []DistanceKind{L2Squared, Cosine, Euclidean}[vChoose("metric", 3)]
 	dim := 2
 	nlist := 1
@@ -229,6 +244,8 @@ func hC07Vector(kind int) {
 }
 
 func H_C07_text() {
+	vPickReaderChunk()
+	defer func() { vBufChunk = 0 }()
 	src := NewBM25SearchIndex()
 	n := vChoose("docs", 4)
 	texts := []string{"tick tick fox dog", "Ｆｏｘ, DOG!", ""}
@@ -298,6 +315,8 @@ func H_C07_text() {
 }
 
 func H_C07_meta() {
+	vPickReaderChunk()
+	defer func() { vBufChunk = 0 }()
 	docs := []*vDoc{
 		{id: 5, hasS: true, s: "a", hasI: true, i: vI64("i0")},
 		{id: 3, hasS: true, s: "", hasB: true, b: true, hasI: true, i: vI64("i1")},
@@ -348,6 +367,8 @@ func H_C07_meta() {
 
 // hybrid: four writers, one concatenated reader
 func H_C07_hybrid() {
+	vPickReaderChunk()
+	defer func() { vBufChunk = 0 }()
 	kind := []int{vKFlat, vKHNSW, vKIVF}[vChoose("kind", 3)]
 	withText := vChoose("with_text", 2) == 1
 	withMeta := vChoose("with_meta", 2) == 1
